@@ -183,7 +183,9 @@ def run_job(job):
 def run_sp(job):
     from mc import sp
     part = Part()
-    mpc, seam = sp.setup(sec_param=3, no_prss=True)
+    # production-size k: the list products truncate with l = bit_length (not + f) and are right only up to the statistical
+    # slack 2^(f-k) of their masks; at a toy k that slack is a coin flip
+    mpc, seam = sp.setup(sec_param=30, no_prss=True)
     T = mpc.SecFxp(L_, F_)
     table = ops_table(mpc, T)
     for name in job['ops']:
@@ -227,7 +229,7 @@ def run_mp(job):
     from mc.explorer import run_execution
     part = Part()
     m, t = job['m'], job['t']
-    world = exact.make_world(m, t, job['no_prss'], 4)
+    world = exact.make_world(m, t, job['no_prss'], 30)
     table = ops_table(exact.Dummy(), exact.Dummy())
     allcases = []
     for name in job['ops']:
@@ -288,7 +290,7 @@ def run_mp_io(job):
     from mc.explorer import run_execution
     part = Part()
     m, t = job['m'], job['t']
-    world = exact.make_world(m, t, job['no_prss'], 4)
+    world = exact.make_world(m, t, job['no_prss'], 30)
     tups = [tup for n in (1, 2, 3) for tup in itertools.product(range(len(ALPHA)), repeat=n)
             if all(in_range(4 * val(ALPHA[i]) ** 2) for i in tup)]
     if job['tier'] == 'quick':
